@@ -19,7 +19,7 @@ cleanup() { git -C /repo worktree remove --force "$EV/repo" >/dev/null 2>&1; rm 
 if ! git -C "$EV/repo" apply "$DST/patch.diff" 2>"$EV/apply.err"; then
     echo "patch does not apply"; cat "$EV/apply.err"; cleanup; exit 2
 fi
-cp -r /verif/sim "$EV/sim"
+git -C /verif archive HEAD sim | tar -x -C "$EV"
 sed -i "s#path = \"/repo\"#path = \"$EV/repo\"#" "$EV/sim/Cargo.toml"
 [ -d /verif/target/release ] && mkdir -p "$EV/target" && cp -r /verif/target/release "$EV/target/release"
 if ! (cd "$EV/sim" && CARGO_TARGET_DIR="$EV/target" cargo build --release --offline >"$EV/build.log" 2>&1); then
